@@ -268,14 +268,17 @@ def _feed(h, obj):
         # that sees more); the check never depends on them being there.
         h.update(b"INTEGRATOR")
         _feed(h, integrator_state(obj))
-    elif hasattr(obj, '__dict__') and not isinstance(obj, type) and not callable(obj):
+    elif has_attrs(obj):
         h.update(b"O" + type(obj).__name__.encode())
         if _depth[0] > 6:
             h.update(b"...")
         else:
             _depth[0] += 1
             try:
-                d = {k: v for k, v in vars(obj).items() if k not in _SKIP_ATTRS}
+                d = {k: v for k, v in obj_attrs(obj).items() if k not in _SKIP_ATTRS
+                     # argument snapshots look at what the caller can see and owns: private
+                     # attributes (lazy caches ...) are judged through behaviour instead
+                     and not (_WITH_AXIS_NAMES[0] and k.startswith('_'))}
                 _feed(h, d)
             finally:
                 _depth[0] -= 1
@@ -298,6 +301,33 @@ def snapshot_digest(*objs):
         return digest(*objs)
     finally:
         _WITH_AXIS_NAMES[0] = False
+
+
+def obj_attrs(obj):
+    """Instance attributes of an object, whether it keeps them in __dict__ or __slots__."""
+    out = {}
+    for klass in type(obj).__mro__:
+        slots = klass.__dict__.get('__slots__', ())
+        if isinstance(slots, str):
+            slots = (slots,)
+        for name in slots:
+            if name not in ('__dict__', '__weakref__') and hasattr(obj, name):
+                try:
+                    out[name] = getattr(obj, name)
+                except AttributeError:
+                    pass
+    if hasattr(obj, '__dict__'):
+        out.update(vars(obj))
+    return out
+
+
+def has_attrs(obj):
+    if isinstance(obj, (type, pd.DataFrame, pd.Series, pd.Index, np.ndarray)) or callable(obj):
+        return False
+    if hasattr(obj, '__dict__'):
+        return True
+    return any('__slots__' in k.__dict__ for k in type(obj).__mro__ if k is not object) and \
+        type(obj).__module__.startswith('pyins')
 
 
 def integrator_state(obj):
